@@ -1730,6 +1730,11 @@ def lt(left: Any, right: Any) -> bool:
     if tol != tor:
       return tol < tor
 
+  # `None` and `pg.MISSING_VALUE` are equal to themselves, therefore none of
+  # them is less than the other.
+  if left is None or isinstance(left, utils.MissingValue):
+    return False
+
   # Most symbolic nodes are leaf, which are primitive types, therefore
   # we detect such types to make `lt` to run faster.
   if isinstance(left, (int, float, bool, str)):
